@@ -3,7 +3,7 @@
    separator consists of spaces, newlines and commas, then lexing the flattened layout
    yields exactly its token pieces, with the byte offsets at which they were written. *)
 From Coq Require Import List NArith Bool Lia.
-From GQL Require Import Base.Bytes Syntax.Lexer Syntax.Ast Syntax.Parser Syntax.Printer Proofs.SyntaxPrinter Proofs.SyntaxUtf8.
+From GQL Require Import Base.Bytes Syntax.Lexer Syntax.Ast Syntax.Parser Syntax.Printer Proofs.SyntaxPrinter Proofs.SyntaxUtf8 Proofs.SyntaxBlock.
 Import ListNotations.
 Open Scope N_scope.
 
@@ -21,11 +21,18 @@ Definition tok_ok (k : tkind) (v rest : bytes) : Prop :=
   forall fuel pos, (length (r ++ rest) < fuel)%nat ->
     read_token fuel (r ++ rest) pos = Ok (mktok k pos (pos + nlen r) (tokval k v), rest, pos + nlen r).
 
+(* the block-string piece (d, s), written before [rest], is read back as the BLOCK_STRING token s *)
+Definition blk_ok (d : N) (s rest : bytes) : Prop :=
+  let r := render_piece (PBlk d s) in
+  forall fuel pos, (length (r ++ rest) < fuel)%nat ->
+    read_token fuel (r ++ rest) pos = Ok (mktok BLOCK_STRING pos (pos + nlen r) s, rest, pos + nlen r).
+
 Fixpoint layout_ok (L : layout) : Prop :=
   match L with
   | [] => True
   | PSep s :: r => sep_ok s /\ layout_ok r
   | PTok k v :: r => tok_ok k v (flat r) /\ layout_ok r
+  | PBlk d s :: r => blk_ok d s (flat r) /\ layout_ok r
   end.
 
 (* the tokens of a layout written at byte offset pos *)
@@ -36,6 +43,9 @@ Fixpoint ptoks (pos : N) (L : layout) : list token :=
   | PTok k v :: r =>
     let n := nlen (render_piece (PTok k v)) in
     mktok k pos (pos + n) (tokval k v) :: ptoks (pos + n) r
+  | PBlk d s :: r =>
+    let n := nlen (render_piece (PBlk d s)) in
+    mktok BLOCK_STRING pos (pos + n) s :: ptoks (pos + n) r
   end.
 Definition eof_tok (p : N) : token := mktok EOF p p [].
 
@@ -93,7 +103,7 @@ Proof.
       * reflexivity.
       * reflexivity.
     + cbn [ptoks app]. unfold nlen at 3. cbn [length]. rewrite N.add_0_r. reflexivity.
-  - destruct p as [k v|s].
+  - destruct p as [k v|s|d s].
     + destruct HL as [(Hk & (b & y & Hr & Hb) & Hread) HL].
       destruct fuel; [simpl in Hf; lia|].
       change (flat (PTok k v :: L)) with (render_piece (PTok k v) ++ flat L) in *.
@@ -112,6 +122,22 @@ Proof.
       rewrite app_assoc in Hf |- *.
       assert (Hws : sep_ok (w ++ s)) by (unfold sep_ok in *; rewrite forallb_app; apply andb_true_iff; split; assumption).
       rewrite (IH (w ++ s) pos fuel Hws HL Hf). cbn [ptoks]. rewrite !nlen_app. rewrite !N.add_assoc. reflexivity.
+    + destruct HL as [Hread HL]. unfold blk_ok in Hread. cbv zeta in Hread.
+      destruct fuel; [simpl in Hf; lia|].
+      change (flat (PBlk d s :: L)) with (render_piece (PBlk d s) ++ flat L) in *.
+      assert (Hr : render_piece (PBlk d s) = 34 :: 34 :: 34 :: N.iter d indent_bytes (block_raw s) ++ tq) by reflexivity.
+      etransitivity.
+      * eapply (lex_all_tok fuel _ pos (render_piece (PBlk d s) ++ flat L) (pos + nlen w)
+                 (mktok BLOCK_STRING (pos + nlen w) (pos + nlen w + nlen (render_piece (PBlk d s))) s)
+                 (flat L) (pos + nlen w + nlen (render_piece (PBlk d s)))).
+        -- apply skip_ws_seps; [exact Hw| |exact Hf]. right. exists 34, ((34 :: 34 :: N.iter d indent_bytes (block_raw s) ++ tq) ++ flat L).
+           split; [rewrite Hr; reflexivity|reflexivity].
+        -- apply Hread. rewrite app_length in Hf. lia.
+        -- discriminate.
+      * assert (E := IH [] (pos + nlen w + nlen (render_piece (PBlk d s))) fuel eq_refl HL).
+        cbn [app] in E. rewrite E
+          by (rewrite app_length in Hf; rewrite Hr in Hf; cbn [app length] in Hf |- *; rewrite app_length in Hf; lia).
+        cbn [ptoks app]. rewrite !nlen_app. unfold nlen at 3. cbn [length]. rewrite !N.add_0_r. rewrite !N.add_assoc. reflexivity.
 Qed.
 
 (* ---- each kind of token piece is read back ---- *)
@@ -395,6 +421,7 @@ Fixpoint layout_wfb (L : layout) : bool :=
   | [] => true
   | PSep s :: r => forallb is_sep_byte s && layout_wfb r
   | PTok k v :: r => piece_wfb k v (flat r) && layout_wfb r
+  | PBlk _ s :: r => blk_okb s && layout_wfb r
   end.
 
 Lemma num_okb_ok : forall v isf, num_okb v isf = true -> num_ok v isf.
@@ -420,8 +447,10 @@ Qed.
 
 Lemma layout_wfb_ok : forall L, layout_wfb L = true -> layout_ok L.
 Proof.
-  induction L as [|p L IH]; intro H; [exact I|]. destruct p as [k v|s]; cbn [layout_wfb layout_ok] in *;
-    apply andb_true_iff in H; destruct H as [H1 H2]; split; auto. apply piece_wfb_ok. exact H1.
+  induction L as [|p L IH]; intro H; [exact I|]. destruct p as [k v|s|d s]; cbn [layout_wfb layout_ok] in *;
+    apply andb_true_iff in H; destruct H as [H1 H2]; split; auto.
+  - apply piece_wfb_ok. exact H1.
+  - intros fuel pos Hf. apply (read_token_block s d (flat L) fuel pos H1 Hf).
 Qed.
 
 (* Lexing the text of a well-formed layout gives back its token pieces, each at the byte offset
